@@ -29,7 +29,9 @@ func (e ExchangeRegexSchema) Example() ([]byte, error) {
 		return e.RSchema.Example()
 	}
 	e.example.once.Do(func() {
-		e.example.value, e.example.err = e.RSchema.Example()
+		var b []byte
+		b, e.example.err = e.RSchema.Example()
+		e.example.value = append([]byte(nil), b...)
 	})
 	return e.example.value, e.example.err
 }
